@@ -144,6 +144,19 @@ CHECKS = {
 NOT_YET = "check not built yet in this session (work in progress; see DESIGN.md §9 build order)"
 
 
+# layers added after the first version of a check (rounds 3-5 of seeded changes); appended to the level text
+MORE = {
+    "*hist": " Object-reuse histories (BFS with canon = history, long cyclic histories, eviction probes) complement the product.",
+    "corner": " Computed-intermediate corner classes (vf/corners.py): inputs found by deterministic search with the reference so that every byte "
+              "position of every named intermediate (hashes, checksums, fingerprints, coordinates, derived keys, digits) is 00 / ff and its "
+              "first / last byte takes every value; complete for that stated family.",
+    "entry": " Alternative entry points (wrappers, bulk calls, parse-then-use, consumers of the encoded form) are driven with the same oracle.",
+}
+MORE_FOR = {"C01": ("corner", "entry"), "C02": ("corner",), "C03": ("corner",), "C04": ("corner", "entry"), "C05": ("corner", "entry"), "C06": ("entry",),
+            "C07": ("corner",), "C09": ("corner",), "C10": ("corner", "entry"), "C11": ("entry",), "C12": ("corner", "entry"), "C13": ("entry",),
+            "C14": ("corner", "entry"), "C15": ("corner",), "C16": ("entry",), "C17": ("corner", "entry"), "C19": ("entry",), "C20": ("corner", "entry")}
+
+
 def main():
     props = [json.loads(l) for l in open(os.path.join(HERE, "properties.jsonl"))]
     checks, na = [], []
@@ -151,6 +164,7 @@ def main():
         pid = p["id"]
         if pid in CHECKS and os.path.exists(os.path.join(HERE, "vf", "checks", pid.lower() + ".py")):
             level, engine, tech, text, ref, note = CHECKS[pid]
+            text = text + "".join(MORE[k] for k in MORE_FOR.get(pid, ()))
             checks.append({
                 "property_id": pid,
                 "quick_cmd": "./run %s quick" % pid,
@@ -177,9 +191,9 @@ def main():
             "add_only": True,
         },
         "engines": [
-            {"name": "E1 product", "path": "vf/core.py", "kind_free_text": "bounded-exhaustive product / deviation-ball enumerator over a 16-process fork pool"},
+            {"name": "E1 product", "path": "vf/core.py", "kind_free_text": "bounded-exhaustive product / deviation-ball enumerator over a 16-process fork pool; vf/corners.py builds complete covers of computed-intermediate corner classes"},
             {"name": "E2 bfs", "path": "vf/bfs.py", "kind_free_text": "explicit-state BFS over the real transition functions with replayed histories"},
-            {"name": "E3 sched", "path": "vf/sched.py", "kind_free_text": "stateless preemption-bounded schedule explorer for real threads (settrace baton)"},
+            {"name": "E3 sched", "path": "vf/sched.py", "kind_free_text": "stateless preemption-bounded schedule explorer for real threads (settrace baton; package locks replaced by cooperative locks: blocking points, deadlock detection)"},
             {"name": "E4 answers", "path": "vf/answers.py", "kind_free_text": "environment-answer (PRF / OS entropy) enumerator at every call position"},
             {"name": "E5 gf32", "path": "vf/checks/c11.py", "kind_free_text": "complete Bech32 <=4-error enumeration through measured syndromes"},
             {"name": "E6 cli", "path": "vf/cli.py", "kind_free_text": "in-process CLI runner with directory snapshots and subprocess cross-check"},
